@@ -166,6 +166,10 @@ enum Op {
     Delete(usize, Cond),
     /// `batch_insert`: rows appended outside any transaction (no lock, no transaction id)
     BatchInsert(usize, Vec<Vec<i64>>),
+    /// `drop_table` / `create_table` under the SAME name again — not in the Lean model: scripts with these run on the
+    /// real engine only
+    DropTable(usize),
+    RecreateTable(usize),
     CreateIndex(usize, usize),
     CreateBtree(usize, usize),
     DropIndex(usize, usize),
@@ -214,6 +218,8 @@ impl Op {
             Op::Delete(t, c) => format!("delete {t} {}", c.tok()),
             Op::BatchInsert(t, rows) => format!("batch_insert {t} {}",
                 if rows.is_empty() { "-".to_string() } else { rows.iter().map(|v| vals_tok(v)).collect::<Vec<_>>().join(";") }),
+            Op::DropTable(t) => format!("drop_table {t}"),
+            Op::RecreateTable(t) => format!("recreate_table {t}"),
             Op::CreateIndex(t, c) => format!("create_index {t} {c}"),
             Op::CreateBtree(t, c) => format!("create_btree {t} {c}"),
             Op::DropIndex(t, c) => format!("drop_index {t} {c}"),
@@ -238,6 +244,8 @@ impl Op {
             Op::Update(..) => "update",
             Op::Delete(..) => "delete_rows",
             Op::BatchInsert(..) => "batch_insert",
+            Op::DropTable(_) => "drop_table",
+            Op::RecreateTable(_) => "create_table",
             Op::CreateIndex(..) => "create_index",
             Op::CreateBtree(..) => "create_btree_index",
             Op::DropIndex(..) => "drop_index",
@@ -352,6 +360,10 @@ struct World {
     idx_created: BTreeMap<(usize, usize, bool), usize>,
     /// highest row id ever seen alive, per table
     hi: Vec<u64>,
+    /// tables dropped while an open transaction had uncommitted changes in them
+    dropped_under_tx: BTreeSet<usize>,
+    /// nullable columns per table (as created)
+    nullable: Vec<Vec<usize>>,
     vnow: u64,
     lock_ms: u64,
     tx_ms: u64,
@@ -386,6 +398,8 @@ impl World {
             idx_reported: BTreeSet::new(),
             idx_created: BTreeMap::new(),
             hi: vec![],
+            dropped_under_tx: BTreeSet::new(),
+            nullable: vec![],
             vnow: 0,
             lock_ms: cfg.lock_secs * 1000,
             tx_ms: cfg.tx_secs * 1000,
@@ -496,6 +510,7 @@ impl World {
                 match self.eng.create_table(&Self::tname(t), schema) {
                     Ok(()) => {
                         self.ntables += 1;
+                        self.nullable.push(nl.clone());
                         self.base.push(Image::new());
                         format!("ok {t}")
                     },
@@ -531,6 +546,24 @@ impl World {
                     format!("ok {} {}{}", ids.len(), ids.first().copied().unwrap_or(0), if consecutive { "" } else { " NOT-CONSECUTIVE" })
                 },
                 Err(e) => format!("err {}", err_class(&e)),
+            },
+            Op::DropTable(t) => {
+                let r = unit(self.eng.drop_table(&Self::tname(*t)));
+                if r == "ok" {
+                    // the committed rows of the table are gone with it
+                    if let Some(b) = self.base.get_mut(*t) {
+                        b.clear();
+                    }
+                    self.log.retain(|e| e.1 .0 != *t);
+                    if self.handles.values().any(|h| h.state == HState::Active && h.first_touch.keys().any(|k| k.0 == *t)) {
+                        self.dropped_under_tx.insert(*t);
+                    }
+                }
+                r
+            },
+            Op::RecreateTable(t) => {
+                let schema = Schema::new((0..NCOLS).map(|c| Column::new(format!("c{c}"), ColumnType::Int)).collect());
+                unit(self.eng.create_table(&Self::tname(*t), schema))
             },
             Op::CreateIndex(t, c) => unit(self.eng.create_index(&Self::tname(*t), &format!("c{c}"))),
             Op::CreateBtree(t, c) => unit(self.eng.create_btree_index(&Self::tname(*t), &format!("c{c}"))),
@@ -598,6 +631,13 @@ fn sweep_conds(hash: &[usize], btree: &[usize], pool: &[i64]) -> Vec<Cond> {
     if let (Some(c), Some(b)) = (hash.first(), btree.first()) {
         v.push(Cond::and(Cond::Eq(*c, mid), Cond::Ge(*b, lo)));
         v.push(Cond::and(Cond::Ge(*b, lo), Cond::Eq(*c, mid)));
+    }
+    // `Or` over indexed columns must NOT be answered from one side's index
+    if let Some(c) = hash.first() {
+        v.push(Cond::or(Cond::Eq(*c, lo), Cond::Eq(*c, hi)));
+    }
+    if let Some(b) = btree.first() {
+        v.push(Cond::or(Cond::Lt(*b, mid), Cond::Gt(*b, hi)));
     }
     v
 }
@@ -747,6 +787,16 @@ fn exec_script(ops: &[Op], cfg: Cfg, mut model: Option<&mut Model>) -> Outcome {
         }
 
         // ---- oracles on the implementation's own behaviour
+        // NOT NULL: whatever ran (a statement, a rollback), no live row holds NULL in a column that refuses it
+        for (k, _, post) in &diff {
+            if let Some(v) = post {
+                let nl = w.nullable.get(k.0).cloned().unwrap_or_default();
+                if let Some(c) = (0..NCOLS).find(|c| v.get(*c) == Some(&NULLV) && !nl.contains(c)) {
+                    out.viol(format!("relational_engine.{site}/null_in_non_nullable_column"),
+                             format!("{}: row {k:?} is now {} although column c{c} is not nullable", op.show(), vals_tok(v)), step);
+                }
+            }
+        }
         let writer: Option<Option<usize>> = match op {
             Op::TxInsert(h, ..) | Op::TxUpdate(h, ..) | Op::TxDelete(h, ..) => Some(Some(*h)),
             Op::Insert(..) | Op::Update(..) | Op::Delete(..) | Op::BatchInsert(..) => Some(None),
@@ -1206,7 +1256,7 @@ fn exec_script(ops: &[Op], cfg: Cfg, mut model: Option<&mut Model>) -> Outcome {
                 }
                 // model comparison of the same answers: simple conditions on every `full` step, compound ones at the
                 // points where an index answer is most at risk (end of a transaction, explicit sweep, end of script)
-                let ask_model = full && (!matches!(c, Cond::And(..))
+                let ask_model = full && (!matches!(c, Cond::And(..) | Cond::Or(..))
                     || matches!(op, Op::Commit(_) | Op::Rollback(_) | Op::Sweep) || step + 1 == ops.len());
                 if ask_model {
                     if let Some(m) = mdl!() {
@@ -1292,6 +1342,23 @@ fn exec_script(ops: &[Op], cfg: Cfg, mut model: Option<&mut Model>) -> Outcome {
         if cfg.lock_secs <= 2 && started.elapsed().saturating_sub(w.slept) > Duration::from_millis(400) {
             out.discarded = true;
             return out;
+        }
+        // CANDIDATE FINDING (reported, not yet decided): `drop_table` does not look at open transactions.  Once a table
+        // has been dropped under a transaction that wrote it, what that transaction's rollback does (fails, or rewrites
+        // the rows of a table created under the same name since) is filed under one class of its own; `absorb` records
+        // it as an observation.
+        if !w.dropped_under_tx.is_empty() {
+            let recreated = ops[..=step].iter().any(|o| matches!(o, Op::RecreateTable(t) if w.dropped_under_tx.contains(t)));
+            let class = if recreated { "relational_engine.drop_table/open_transaction_undo_applied_to_recreated_table" }
+                        else { "relational_engine.drop_table/open_transaction_rollback_fails_after_drop" };
+            // one entry for the script: every oracle verdict since the drop, in order
+            let (mine, rest): (Vec<_>, Vec<_>) = std::mem::take(&mut out.violations).into_iter()
+                .partition(|v| !v.0.starts_with("relational_engine.drop_table/") || v.0 == class);
+            out.violations = rest;
+            if !mine.is_empty() {
+                let what = mine.iter().map(|v| if v.0 == class { v.1.clone() } else { format!("[{}] {}", v.0, v.1) }).collect::<Vec<_>>().join(" || ");
+                out.violations.push((class.to_string(), what, step));
+            }
         }
     }
     out
@@ -1796,6 +1863,21 @@ fn directed() -> Vec<(&'static str, Cfg, Vec<Op>)> {
               BatchInsert(9, vec![vec![1, 1]]), Begin(1), TxUpdate(1, 0, Cond::Ge(0, 5), vec![(0, 0)]), TxDelete(1, 0, Cond::Id(6)),
               TxUpdate(0, 0, Cond::Id(6), vec![(0, 1)]), TxSelect(0, 0, Cond::All), Sweep, Rollback(0), BatchInsert(0, vec![vec![0, 0]]), Sweep, Rollback(1), Sweep]);
     out.push(("batch_insert_beside_open_transactions", long, s));
+    // drop_table under an open transaction (REAL ENGINE ONLY: not in the model).  (a) the rollback finds no table and
+    // fails; (b) a table created under the same name meanwhile gets the undo applied to ITS rows: committed row 1 is
+    // overwritten with the dropped table's old values, committed row 2..4 survive only by luck of their ids; (c) control:
+    // the open transaction never wrote the table — drop, re-create, rollback are all clean
+    let mut s = base(false);
+    s.extend([Begin(0), TxUpdate(0, 0, Cond::Id(1), vec![(0, 4)]), TxInsert(0, 0, vec![4, 4]), DropTable(0), Rollback(0)]);
+    out.push(("drop_table_under_open_tx_then_rollback", long, s));
+    let mut s = base(false);
+    s.extend([Begin(0), TxUpdate(0, 0, Cond::Id(1), vec![(0, 4)]), TxDelete(0, 0, Cond::Id(2)), TxInsert(0, 0, vec![4, 4]), DropTable(0), RecreateTable(0),
+              Insert(0, vec![5, 5]), Insert(0, vec![5, 0]), Insert(0, vec![0, 5]), Insert(0, vec![3, 2]), Sweep, Rollback(0), Sweep]);
+    out.push(("drop_recreate_under_open_tx_then_rollback", long, s));
+    let mut s = base(false);
+    s.extend([CreateTable, Insert(1, vec![1, 1]), Begin(0), TxUpdate(0, 1, Cond::All, vec![(0, 2)]), DropTable(0), RecreateTable(0), Insert(0, vec![5, 5]),
+              Rollback(0), Begin(1), TxUpdate(1, 0, Cond::All, vec![(1, 1)]), Rollback(1), Sweep]);
+    out.push(("drop_recreate_table_untouched_by_open_tx", long, s));
     // both index kinds on the SAME column (hash c0 + b-tree c0 + b-tree c1)
     let mut s = base(true);
     s.extend([Begin(0), TxUpdate(0, 0, Cond::Id(1), vec![(0, 1)]), TxUpdate(0, 0, Cond::All, vec![(1, 2)]), Sweep, Rollback(0), Sweep]);
@@ -2021,6 +2103,281 @@ fn run_sleepers(driver: &str, jobs: Vec<(Cfg, Vec<Op>)>) -> Vec<Outcome> {
     handles.into_iter().map(|h| h.join().expect("sleeper thread panicked")).collect()
 }
 
+// ------------------------------------------------------------------ below statement granularity
+//
+// `tx_update` / `tx_delete` read their rows by a scan and only then take the row locks.  The cases here put other
+// transactions' committed work INTO that gap.  With the verification hook of
+// /verif/proposed/C09-hook-yield-between-scan-and-lock.diff (yield sites `relational.tx_{update,delete}.after_scan`)
+// the interleaving is forced deterministically by the scheduler and compared with the Lean model of the two halves
+// (`RaceModel.lean`: scan_update / apply_update …); without the hook a two-thread stress run looks for the same effect.
+// CANDIDATE FINDING, not yet decided: what the oracles find here is recorded with `rep.observe`, not as a violation.
+
+struct RaceCase {
+    name: &'static str,
+    /// indexes: (column, is_btree)
+    indexes: Vec<(usize, bool)>,
+    rows: Vec<Vec<i64>>,
+    /// A's statement: update (cond, SET list) or delete (cond)
+    a_cond: Cond,
+    a_upd: Option<Vec<(usize, i64)>>,
+    /// non-transactional statements of somebody else, run between A's scan and A's locks
+    gap: Vec<Op>,
+    a_commits: bool,
+}
+
+fn race_cases() -> Vec<RaceCase> {
+    let rows = || vec![vec![1, 1], vec![2, 2], vec![3, 3]];
+    vec![
+        RaceCase { name: "update_in_gap_then_rollback", indexes: vec![(0, false), (1, true)], rows: rows(),
+                   a_cond: Cond::Ge(0, 0), a_upd: Some(vec![(1, 4)]), gap: vec![Op::Update(0, Cond::Id(1), vec![(0, 5)])], a_commits: false },
+        RaceCase { name: "update_same_column_in_gap_then_rollback", indexes: vec![(0, false), (0, true)], rows: rows(),
+                   a_cond: Cond::Id(1), a_upd: Some(vec![(0, 4)]), gap: vec![Op::Update(0, Cond::Id(1), vec![(0, 5)])], a_commits: false },
+        RaceCase { name: "update_same_column_in_gap_then_commit", indexes: vec![(0, false), (0, true)], rows: rows(),
+                   a_cond: Cond::Id(1), a_upd: Some(vec![(0, 4)]), gap: vec![Op::Update(0, Cond::Id(1), vec![(0, 5)])], a_commits: true },
+        RaceCase { name: "delete_in_gap_then_update_rollback", indexes: vec![(0, false)], rows: rows(),
+                   a_cond: Cond::All, a_upd: Some(vec![(1, 0)]), gap: vec![Op::Delete(0, Cond::Id(2))], a_commits: false },
+        RaceCase { name: "delete_in_gap_then_delete_rollback", indexes: vec![(0, false), (1, true)], rows: rows(),
+                   a_cond: Cond::Le(0, 2), a_upd: None, gap: vec![Op::Delete(0, Cond::Id(2)), Op::Update(0, Cond::Id(1), vec![(1, 5)])], a_commits: false },
+        RaceCase { name: "row_leaves_condition_in_gap", indexes: vec![(0, false)], rows: rows(),
+                   a_cond: Cond::Eq(0, 1), a_upd: Some(vec![(1, 4)]), gap: vec![Op::Update(0, Cond::Id(1), vec![(0, 3)])], a_commits: true },
+        RaceCase { name: "control_nothing_in_gap", indexes: vec![(0, false), (1, true)], rows: rows(),
+                   a_cond: Cond::Ge(0, 2), a_upd: Some(vec![(0, 0), (1, 4)]), gap: vec![Op::Insert(0, vec![4, 4])], a_commits: false },
+    ]
+}
+
+fn race_image(eng: &RelationalEngine) -> Image {
+    eng.select("t0", Condition::True).map(|r| World::conv_rows(&r)).unwrap_or_default().into_iter().collect()
+}
+
+/// every index-served answer of table t0 against the filter of its full scan; first wrong one
+fn race_index_check(eng: &RelationalEngine, hc: &[usize], bc: &[usize]) -> Option<String> {
+    let img = race_image(eng);
+    for c in sweep_conds(hc, bc, P6) {
+        let got = eng.select("t0", c.real()).map(|r| World::conv_rows(&r)).unwrap_or_default();
+        let want: Vec<(u64, Vec<i64>)> = img.iter().filter(|(id, v)| c.holds(**id, v)).map(|(k, v)| (*k, v.clone())).collect();
+        if got != want {
+            return Some(format!("select t0 {} through the index = [{}], full scan + filter = [{}]", c.tok(), rows_tok(&got), rows_tok(&want)));
+        }
+    }
+    None
+}
+
+/// One scheduled case.  Returns (hook seen, findings as (class, what), model disagreements).
+fn run_race_case(case: &RaceCase, model: &mut Model) -> (bool, Vec<(String, String)>, Vec<(String, String, String)>) {
+    use std::sync::{Arc, Mutex};
+    let eng = Arc::new(RelationalEngine::with_config(RelationalConfig::default().with_lock_timeout_secs(30).with_transaction_timeout_secs(60)));
+    let schema = Schema::new((0..NCOLS).map(|c| Column::new(format!("c{c}"), ColumnType::Int)).collect());
+    eng.create_table("t0", schema).unwrap();
+    let mut lines: Vec<String> = vec!["init 30000 60000".into(), format!("create_table {NCOLS}")];
+    for (c, bt) in &case.indexes {
+        if *bt { eng.create_btree_index("t0", &format!("c{c}")).unwrap(); } else { eng.create_index("t0", &format!("c{c}")).unwrap(); }
+        lines.push(format!("{} 0 {c}", if *bt { "create_btree" } else { "create_index" }));
+    }
+    for r in &case.rows {
+        eng.insert("t0", r.iter().enumerate().map(|(c, x)| (format!("c{c}"), Value::Int(*x))).collect()).unwrap();
+        lines.push(format!("insert 0 {}", vals_tok(r)));
+    }
+    let hc: Vec<usize> = case.indexes.iter().filter(|i| !i.1).map(|i| i.0).collect();
+    let bc: Vec<usize> = case.indexes.iter().filter(|i| i.1).map(|i| i.0).collect();
+    let tx = eng.begin_transaction();
+    let site = if case.a_upd.is_some() { "tx_update" } else { "tx_delete" };
+    let a_res: Arc<Mutex<String>> = Arc::new(Mutex::new(String::new()));
+    let b_res: Arc<Mutex<(Vec<String>, Image)>> = Arc::new(Mutex::new((vec![], Image::new())));
+    let to_map = |u: &Vec<(usize, i64)>| -> HashMap<String, Value> { u.iter().map(|(c, x)| (format!("c{c}"), vreal(*x))).collect() };
+    let (e1, r1, cond1, upd1) = (eng.clone(), a_res.clone(), case.a_cond.real(), case.a_upd.as_ref().map(to_map));
+    let task_a: Box<dyn FnOnce() + Send> = Box::new(move || {
+        let r = match upd1 {
+            Some(u) => e1.tx_update(tx, "t0", cond1, u),
+            None => e1.tx_delete(tx, "t0", cond1),
+        };
+        *r1.lock().unwrap() = match r {
+            Ok(n) => format!("ok {n}"),
+            Err(RelationalError::StorageError(_)) => "err storage".into(),
+            Err(e) => format!("err {}", err_class(&e)),
+        };
+    });
+    let (e2, r2, gap) = (eng.clone(), b_res.clone(), case.gap.clone());
+    let task_b: Box<dyn FnOnce() + Send> = Box::new(move || {
+        let mut out = vec![];
+        for op in &gap {
+            let r = match op {
+                Op::Update(_, c, u) => e2.update("t0", c.real(), u.iter().map(|(c, x)| (format!("c{c}"), vreal(*x))).collect()).map(|n| format!("ok {n}")),
+                Op::Delete(_, c) => e2.delete_rows("t0", c.real()).map(|n| format!("ok {n}")),
+                Op::Insert(_, v) => e2.insert("t0", v.iter().enumerate().map(|(c, x)| (format!("c{c}"), vreal(*x))).collect()).map(|n| format!("ok {n}")),
+                _ => Ok("skipped".to_string()),
+            };
+            out.push(r.unwrap_or_else(|e| format!("err {}", err_class(&e))));
+        }
+        let img = race_image(&e2);
+        *r2.lock().unwrap() = (out, img);
+    });
+    // schedule: A up to the gap between its scan and its locks, then B to the end, then A to the end
+    let mut reached = false;
+    let trace = nverif::sched::run_threads(vec![task_a, task_b], |_, parked| {
+        if parked.iter().any(|p| p.0 == 0 && p.1.ends_with(".after_scan")) {
+            reached = true;
+        }
+        let want = if reached && parked.iter().any(|p| p.0 == 1) { 1 } else { 0 };
+        parked.iter().position(|p| p.0 == want).unwrap_or(0)
+    });
+    let hook = trace.iter().any(|s| s.site.ends_with(".after_scan"));
+    let mut findings: Vec<(String, String)> = vec![];
+    let mut dis: Vec<(String, String, String)> = vec![];
+    let a_result = a_res.lock().unwrap().clone();
+    let (b_results, gap_image) = b_res.lock().unwrap().clone();
+    if !hook {
+        // the engine has no yield point there: A ran to its end before B started — nothing to judge
+        let _ = eng.rollback(tx);
+        return (false, findings, dis);
+    }
+    let script = format!("rows {:?}; A (open): {site} {} {}; in the gap between A's scan and A's locks: {:?} -> {:?}; then A's second half -> {a_result}; then A {}",
+        case.rows, case.a_cond.tok(), case.a_upd.as_ref().map_or(String::new(), |u| upd_tok(u)),
+        case.gap.iter().map(|o| o.show()).collect::<Vec<_>>(), b_results, if case.a_commits { "commits" } else { "rolls back" });
+    // ---- the model of the two halves
+    let mut ask = |m: &mut Model, q: String, real: Option<&str>| {
+        let a = m.ask(&q);
+        if let Some(r) = real {
+            if a != r {
+                dis.push((q, r.to_string(), a));
+            }
+        }
+    };
+    for l in &lines {
+        ask(model, l.clone(), None);
+    }
+    let mtx = model.ask("begin").strip_prefix("ok ").unwrap_or("0").to_string();
+    match &case.a_upd {
+        Some(u) => ask(model, format!("scan_update {mtx} 0 {} {}", case.a_cond.tok(), upd_tok(u)), None),
+        None => ask(model, format!("scan_delete {mtx} 0 {}", case.a_cond.tok()), None),
+    }
+    for (op, r) in case.gap.iter().zip(b_results.iter()) {
+        // insert answers the row id on the wire
+        ask(model, op.line(&|h| h.to_string()), Some(r.as_str()));
+    }
+    // the second half AS THE CODE IS; with VERIF_C09_REREAD=1 (a tree that has
+    // /verif/proposed/C09-tx-write-rereads-rows-after-lock.diff) the repaired second half of the model
+    let reread = std::env::var("VERIF_C09_REREAD").is_ok_and(|v| v == "1");
+    match (&case.a_upd, reread) {
+        (Some(u), false) => ask(model, format!("apply_update {mtx} 0 {}", upd_tok(u)), Some(a_result.as_str())),
+        (None, false) => ask(model, format!("apply_delete {mtx} 0"), Some(a_result.as_str())),
+        (Some(u), true) => ask(model, format!("apply_update_fixed {mtx} 0 {} {}", case.a_cond.tok(), upd_tok(u)), Some(a_result.as_str())),
+        (None, true) => ask(model, format!("apply_delete_fixed {mtx} 0 {}", case.a_cond.tok()), Some(a_result.as_str())),
+    }
+    let img_tok = |eng: &RelationalEngine| {
+        let rows: Vec<(u64, Vec<i64>)> = race_image(eng).into_iter().collect();
+        format!("img {}|H:{}|B:{}", rows_tok(&rows), World::nats(&hc), World::nats(&bc))
+    };
+    ask(model, "image 0".into(), Some(img_tok(&eng).as_str()));
+    // ---- oracles on the real engine
+    if a_result.starts_with("err") && a_result != "err lock_conflict" && race_image(&eng) != gap_image {
+        findings.push((format!("relational_engine.{site}/failed_statement_changed_rows_scan_before_lock"),
+                       format!("{script}: the statement answered {a_result} after it had changed rows")));
+    }
+    let end = if case.a_commits { eng.commit(tx) } else { eng.rollback(tx) };
+    let end_s = match &end { Ok(()) => "ok".to_string(), Err(e) => format!("err {}", err_class(e)) };
+    ask(model, format!("{} {mtx}", if case.a_commits { "commit" } else { "rollback" }), Some(end_s.as_str()));
+    ask(model, "image 0".into(), Some(img_tok(&eng).as_str()));
+    for c in sweep_conds(&hc, &bc, P6) {
+        let got = eng.select("t0", c.real()).map(|r| World::conv_rows(&r)).unwrap_or_default();
+        ask(model, format!("select 0 {}", c.tok()), Some(format!("rows {}", rows_tok(&got)).as_str()));
+    }
+    if !case.a_commits {
+        // "as if none of A's statements had run": the tables are what the others' committed work made of them
+        let now = race_image(&eng);
+        if now != gap_image || end.is_err() {
+            findings.push((format!("relational_engine.{site}/committed_write_lost_scan_before_lock"),
+                format!("{script} -> {end_s}: table is {:?}; the committed work of the others alone gives {:?}", now, gap_image)));
+        }
+    }
+    if let Some(w) = race_index_check(&eng, &hc, &bc) {
+        findings.push((format!("relational_engine.{site}/index_inconsistent_scan_before_lock"), format!("{script}: {w}")));
+    }
+    (true, findings, dis)
+}
+
+/// Without the hook: two real threads.  B commits `rounds` updates of column c1 of row 1 (each one a non-transactional
+/// `update`); A keeps updating c0 of the same row inside a transaction and rolling back.  B is the only one whose work
+/// is ever committed, so at the end c1 must be B's last successful value and the hash index on c1 must find the row.
+fn race_stress(nrows: i64, rounds: i64) -> Option<String> {
+    use std::sync::atomic::{AtomicBool, Ordering};
+    use std::sync::Arc;
+    let eng = Arc::new(RelationalEngine::new());
+    let schema = Schema::new((0..NCOLS).map(|c| Column::new(format!("c{c}"), ColumnType::Int)).collect());
+    eng.create_table("t0", schema).unwrap();
+    eng.create_index("t0", "c1").unwrap();
+    let rows: Vec<HashMap<String, Value>> = (0..nrows).map(|i| HashMap::from([("c0".to_string(), Value::Int(i)), ("c1".to_string(), Value::Int(0))])).collect();
+    let _ = eng.batch_insert("t0", rows).unwrap();
+    let stop = Arc::new(AtomicBool::new(false));
+    let (e2, stop2) = (eng.clone(), stop.clone());
+    let a = std::thread::spawn(move || {
+        let mut n = 0u64;
+        while !stop2.load(Ordering::Relaxed) {
+            let tx = e2.begin_transaction();
+            if e2.tx_update(tx, "t0", Condition::Eq("_id".into(), Value::Int(1)), HashMap::from([("c0".to_string(), Value::Int(-1))])).is_ok() {
+                n += 1;
+            }
+            let _ = e2.rollback(tx);
+        }
+        n
+    });
+    let mut last = 0;
+    for i in 1..=rounds {
+        if eng.update("t0", Condition::Eq("_id".into(), Value::Int(1)), HashMap::from([("c1".to_string(), Value::Int(i))])).is_ok() {
+            last = i;
+        }
+    }
+    stop.store(true, Ordering::SeqCst);
+    let a_ok = a.join().unwrap_or(0);
+    let row = eng.select("t0", Condition::Eq("_id".into(), Value::Int(1))).ok()?;
+    let c1 = match row.first().and_then(|r| r.get("c1")) { Some(Value::Int(x)) => *x, _ => i64::MIN };
+    let via = eng.select("t0", Condition::Eq("c1".into(), Value::Int(last))).map(|r| r.iter().any(|x| x.id == 1)).unwrap_or(false);
+    if c1 != last || !via {
+        Some(format!("two threads on a {nrows}-row table: B committed {rounds} non-transactional updates of row 1 (last value {last}); A ran {a_ok} \
+                      tx_update + rollback on the same row; afterwards c1 of row 1 = {c1} (committed updates lost by A's rollbacks) and the hash \
+                      index on c1 {} the row under {last}", if via { "finds" } else { "does not find" }))
+    } else {
+        None
+    }
+}
+
+fn race_stream(rep: &mut Report, model: &mut Model, thorough: bool) {
+    let mut hook_seen = false;
+    let mut seen: BTreeSet<String> = BTreeSet::new();
+    for case in race_cases() {
+        let (hook, findings, dis) = run_race_case(&case, model);
+        rep.case("race", if hook { Some(case.name) } else { None });
+        rep.hit(&format!("race:{}:{}", case.name, if hook { "scheduled" } else { "hook_absent" }));
+        hook_seen |= hook;
+        for (q, imp, mdl) in dis {
+            rep.disagree("race.split_statement", json!({"case": case.name, "query": q}), &imp, &mdl);
+        }
+        for (class, what) in findings {
+            rep.hit(&format!("observed:{class}"));
+            if seen.insert(class.clone()) {
+                rep.observe(json!({"class": class, "what": what, "case": case.name,
+                                   "inside_quantifier": "undecided: interleaving below statement granularity (candidate finding)"}));
+            }
+        }
+    }
+    if !hook_seen {
+        rep.note("the yield sites relational.tx_{update,delete}.after_scan are not in this tree (see /verif/proposed/C09-hook-yield-between-scan-and-lock.diff): \
+                  the scheduled scan-before-lock cases did not run; the two-thread stress run stands in for them");
+    }
+    // the stress run (real threads, no scheduler): cheap, not deterministic — an observation either way
+    let (nrows, rounds) = if thorough { (4000, 400) } else { (2000, 120) };
+    match race_stress(nrows, rounds) {
+        Some(what) => {
+            rep.hit("observed:relational_engine.tx_update/committed_write_lost_scan_before_lock");
+            rep.hit("race_stress:lost_update_seen");
+            if seen.insert("stress".into()) {
+                rep.observe(json!({"class": "relational_engine.tx_update/committed_write_lost_scan_before_lock", "what": what, "case": "two_thread_stress",
+                                   "inside_quantifier": "undecided: interleaving below statement granularity (candidate finding)"}));
+            }
+        },
+        None => rep.hit("race_stress:clean"),
+    }
+}
+
 // ------------------------------------------------------------------ main
 
 struct Tally {
@@ -2047,6 +2404,15 @@ fn absorb(rep: &mut Report, tally: &mut Tally, stream: &str, cfg: Cfg, ops: &[Op
         rep.disagree(&format!("{stream}.{s}"), input, &imp, &mdl);
     }
     for (class, what, step) in out.violations {
+        if class.starts_with("relational_engine.drop_table/") {
+            // candidate finding, reported to the coordinator; until it is decided it is an observation, not a violation
+            rep.hit(&format!("observed:{class}"));
+            if tally.per_class.insert(format!("observed:{class}"), 1).is_none() {
+                rep.observe(json!({"class": class, "what": what, "inside_quantifier": "undecided: DDL under an open transaction",
+                                   "script": ops[..=step.min(ops.len() - 1)].iter().map(|o| o.show()).collect::<Vec<_>>()}));
+            }
+            continue;
+        }
         let n = tally.per_class.entry(class.clone()).or_insert(0);
         *n += 1;
         rep.hit(&format!("violation:{class}"));
@@ -2108,7 +2474,9 @@ fn main() {
             outs
         })
     };
-    let mut quick_outs: Vec<Outcome> = dir.iter().filter(|d| !has_tick(&d.2)).map(|d| exec_script(&d.2, d.1, Some(&mut model))).collect();
+    let real_only = |ops: &Vec<Op>| ops.iter().any(|o| matches!(o, Op::DropTable(_) | Op::RecreateTable(_)));
+    let mut quick_outs: Vec<Outcome> = dir.iter().filter(|d| !has_tick(&d.2))
+        .map(|d| if real_only(&d.2) { exec_script(&d.2, d.1, None) } else { exec_script(&d.2, d.1, Some(&mut model)) }).collect();
     quick_outs.reverse();
     let mut sleeper_outs = dir_sleepers.join().expect("directed sleepers panicked");
     sleeper_outs.reverse();
@@ -2208,6 +2576,9 @@ fn main() {
         absorb(&mut rep, &mut tally, "takeover", *cfg, ops, outs.pop().unwrap(), false);
     }
 
+    // 6. below statement granularity: the gap between a statement's scan and its row locks
+    race_stream(&mut rep, &mut model, args.thorough);
+
     rep.expected_branches = [
         "op:commit:ok", "op:commit:tx_not_found", "op:rollback:ok", "op:rollback:tx_not_found", "op:rollback:rollback_failed",
         "op:tx_insert:ok", "op:tx_insert:tx_not_found", "op:tx_update:ok", "op:tx_update:lock_conflict", "op:tx_update:tx_not_found",
@@ -2217,7 +2588,10 @@ fn main() {
         "op:insert:table_not_found", "op:update:table_not_found", "op:update:column_not_found", "op:delete_rows:table_not_found",
         "tx_select_by_open_tx", "tx_select_by_finished_tx", "and_condition_served_by_hash_index", "and_condition_served_by_btree_index",
         "directed:compound_condition_lock_set", "directed:and_condition_through_index_rollback", "directed:tx_select_open_and_finished",
-        "directed:batch_insert_beside_open_transactions", "op:batch_insert:ok", "op:batch_insert:bad_input", "op:batch_insert:table_not_found",
+        "directed:batch_insert_beside_open_transactions", "directed:drop_table_under_open_tx_then_rollback",
+        "directed:drop_recreate_under_open_tx_then_rollback", "directed:drop_recreate_table_untouched_by_open_tx",
+        "observed:relational_engine.drop_table/open_transaction_undo_applied_to_recreated_table",
+        "observed:relational_engine.drop_table/open_transaction_rollback_fails_after_drop", "op:batch_insert:ok", "op:batch_insert:bad_input", "op:batch_insert:table_not_found",
         "directed:failed_statements_change_nothing", "directed:null_values_indexed_rollback", "directed:null_values_indexed_commit",
         "op:update:bad_input", "op:tx_update:bad_input", "null_stored:omitted", "null_stored:explicit", "null_assigned_by_update",
         "null_compared_in_condition", "directed:extreme_values_hash_and_btree", "op:insert:ok", "op:update:ok", "op:update:lock_conflict", "op:delete_rows:ok",
